@@ -8,6 +8,85 @@ SYNC = "core::marker::Sync"
 SHARED = ("Arc", "ThinArc", "OffsetArc", "ArcBorrow", "ArcUnion")
 
 
+NEVER = ("<never>", "<never>")
+
+
+def _expand_auto(F, by, idx, env, tr, depth):
+    """The set of (type parameter, auto trait) atoms that `type: tr` amounts to - following manual impls of local types (their
+    parameter bounds) and the structural definition of auto traits otherwise - or None when it cannot be told.
+    `NEVER` in the set: the bound can never hold (raw pointers)."""
+    if depth > 12:
+        return None
+    t = F.ty(idx)
+    k = t["k"]
+    if k == "param":
+        if t["name"] in env:
+            ti, e2 = env[t["name"]]
+            return _expand_auto(F, by, ti, e2, tr, depth + 1)
+        return {(t["name"], tr)}
+    if k in ("prim", "str", "never"):
+        return set()
+    if k in ("array", "slice"):
+        return _expand_auto(F, by, t["t"], env, tr, depth + 1)
+    if k == "tuple":
+        out = set()
+        for x in t["ts"]:
+            r = _expand_auto(F, by, x, env, tr, depth + 1)
+            if r is None:
+                return None
+            out |= r
+        return out
+    if k == "ref":
+        shared = not t.get("mut")
+        return _expand_auto(F, by, t["t"], env, SYNC if (shared or tr == SYNC) else SEND, depth + 1)
+    if k == "ptr":
+        return {NEVER}
+    if k != "adt":
+        return None
+    path = t["path"]
+    targs = [a["t"] for a in t["args"] if "t" in a]
+    if path == "core::ptr::non_null::NonNull":
+        return {NEVER}
+    if path in ("core::marker::PhantomData", "core::mem::manually_drop::ManuallyDrop", "core::mem::maybe_uninit::MaybeUninit"):
+        return _expand_auto(F, by, targs[0], env, tr, depth + 1)
+    if path.startswith("core::sync::atomic::Atomic"):
+        return set()
+    if path in ("core::cell::UnsafeCell", "core::cell::Cell"):
+        return _expand_auto(F, by, targs[0], env, SEND, depth + 1) if tr == SEND else {NEVER}
+    adt = F.adts.get(path)
+    if not adt or not t.get("local"):
+        return None
+    names = [g["name"] for g in adt["generics"] if g["kind"] == "type"]
+    e2 = {n: (ti, env) for n, ti in zip(names, targs)}
+    ims = by.get((path, tr), [])
+    if ims:
+        if len(ims) != 1 or ims[0].get("negative"):
+            return None
+        im = ims[0]
+        st = F.ty(im["self_ty"])
+        iargs = [F.ty(a["t"]) for a in st["args"] if "t" in a]
+        if not all(a["k"] == "param" for a in iargs) or len(iargs) != len(targs):
+            return None
+        e3 = {a["name"]: (ti, env) for a, ti in zip(iargs, targs)}
+        out = set()
+        for p in im["preds"]:
+            if p["kind"] != "trait" or p["trait"] not in (SEND, SYNC):
+                continue
+            r = _expand_auto(F, by, p["self"], e3, p["trait"], depth + 1)
+            if r is None:
+                return None
+            out |= r
+        return out
+    out = set()
+    for v in adt["variants"]:
+        for f in v["fields"]:
+            r = _expand_auto(F, by, f["ty"], e2, tr, depth + 1)
+            if r is None:
+                return None
+            out |= r
+    return out
+
+
 def rule_auto(ctx, rep):
     """Exactness of the manual auto-trait impls, for all payload types at once (read from the impl table)."""
     for tag, F, E in ctx.each(da=False):
@@ -56,7 +135,13 @@ def rule_auto(ctx, rep):
                         if sn["k"] == "param":
                             got.add((sn["name"], p["trait"]))
                         else:
-                            other.append(p["s"])
+                            # a bound on a composite type (`where ThinInner<H, T>: Send`): what it demands of the parameters,
+                            # through the manual impls of local types and the structural rule elsewhere
+                            ex = _expand_auto(F, by, p["self"], {}, p["trait"], 0)
+                            if ex is None:
+                                other.append(p["s"])
+                            else:
+                                got |= ex
                 if h == "UniqueArc":
                     want = set((n, tr) for n in names)
                 else:
@@ -152,7 +237,7 @@ def rule_auto(ctx, rep):
                 rep.ok("R-VARIANCE", h, " ".join("%s:%s" % (g["name"], v) for g, v in zip(adt["generics"], adt["variances"])), cfg=tag)
     rep.floor("R-VARIANCE", 6, "handle types")
     rep.floor("R-LIFETIME", 25, "functions whose result carries a lifetime")
-    rep.floor("R-AUTO", 14, "12 impls on handle types + 2 on the allocation header")
+    rep.floor("R-AUTO", 12, "12 impls on handle types (the 2 on the private allocation header are not part of any handle's contract)")
     rep.floor("R-PHANTOM", 4, "four owning handles with Drop")
 
 
